@@ -92,9 +92,10 @@ const (
 	FText               // TextStr (implements encoding.TextUnmarshaler)
 	FCust               // PI: interface type whose values come from a ParseTypeWith function
 	FCusts              // []PI
+	FParsR              // *PTokR (user production that consumes a token and rewinds with a checkpoint when it does not like it)
 )
 
-var fkindNames = []string{"string", "[]string", "bool", "*string", "lexer.Token", "[]lexer.Token", "*P", "[]*P", "P", "[]P", "U", "[]U", "NamedString", "NamedBool", "*bool", "int", "[]int", "int8", "*PTok", "PTok", "[]PTok", "CapStr", "*CapStr", "[]CapStr", "TextStr", "PI", "[]PI"}
+var fkindNames = []string{"string", "[]string", "bool", "*string", "lexer.Token", "[]lexer.Token", "*P", "[]*P", "P", "[]P", "U", "[]U", "NamedString", "NamedBool", "*bool", "int", "[]int", "int8", "*PTok", "PTok", "[]PTok", "CapStr", "*CapStr", "[]CapStr", "TextStr", "PI", "[]PI", "*PTokR"}
 
 func (k FKind) String() string { return fkindNames[k] }
 
@@ -129,6 +130,9 @@ type Grammar struct {
 	CI        []string `json:"ci,omitempty"`      // case-insensitive token types
 	Elide     []string `json:"elide,omitempty"`   // elided token types
 	Profile   string   `json:"profile,omitempty"` // lexer profile: "" stateful test lexer, "scanner" default text/scanner lexer
+	// Static names a hand-written family of Go struct types (static.go) that the productions are rendered as instead
+	// of reflect.StructOf types: the only way to get productions that contain themselves directly (F *Self `@@`).
+	Static string `json:"static,omitempty"`
 }
 
 func (g *Grammar) IsCI(typ string) bool {
@@ -375,6 +379,24 @@ func (p *PTok) Parse(lex *lexer.PeekingLexer) error {
 	return nil
 }
 
+// PTokR is a user-implemented production that takes one token, but not one spelled with a "b": it consumes the
+// token first and rewinds with a checkpoint (MakeCheckpoint / LoadCheckpoint) when it does not want it.
+type PTokR struct {
+	V string
+}
+
+// Parse implements participle.Parseable.
+func (p *PTokR) Parse(lex *lexer.PeekingLexer) error {
+	cp := lex.MakeCheckpoint()
+	t := lex.Next()
+	if t.EOF() || strings.ContainsAny(t.Value, "bB") {
+		lex.LoadCheckpoint(cp)
+		return participle.NextMatch
+	}
+	p.V = t.Value
+	return nil
+}
+
 // PI is an interface type whose values are produced by a function registered with participle.ParseTypeWith
 // (ParsePI); like PTok the function consumes exactly one token.
 type PI interface{}
@@ -447,6 +469,7 @@ var (
 	tInt8    = reflect.TypeOf(int8(0))
 	tPTok    = reflect.TypeOf(PTok{})
 	tPI      = reflect.TypeOf((*PI)(nil)).Elem()
+	tPTokR   = reflect.TypeOf(PTokR{})
 	tCapStr  = reflect.TypeOf(CapStr{})
 	tTextStr = reflect.TypeOf(TextStr{})
 )
@@ -457,6 +480,9 @@ var typeSerial uint64
 // are acyclic by construction (recursion only goes through unions, i.e. interface types).
 // Every call yields fresh, distinct types (a unique marker field defeats StructOf's interning).
 func (g *Grammar) Types() []reflect.Type {
+	if g.Static != "" {
+		return staticTypes[g.Static]
+	}
 	types := make([]reflect.Type, len(g.Prods))
 	typeSerial++
 	var build func(i int) reflect.Type
@@ -532,6 +558,8 @@ func (g *Grammar) Types() []reflect.Type {
 				ft = reflect.SliceOf(tCapStr)
 			case FText:
 				ft = tTextStr
+			case FParsR:
+				ft = reflect.PtrTo(tPTokR)
 			case FCust:
 				ft = tPI
 			case FCusts:
